@@ -424,12 +424,13 @@ Qed.
 
 Section Ops.
 Variable mx : Z.
+Variable kp : Z.
 
 Lemma J_tracker_ext tnt tnt' x d h t t' :
-  J mx tnt x d h t ->
+  J mx kp tnt x d h t ->
   po_clock t' <= pw_clock x -> po_pools t' = po_pools t -> po_tasks t' = po_tasks t -> po_workers t' = po_workers t ->
   po_c12 t' = true -> po_c01 t' = true -> (tnt' = false -> po_c11 t' = true) -> po_c02 t' = true -> po_c13 t' = true ->
-  J mx tnt' x d h t'.
+  J mx kp tnt' x d h t'.
 Proof.
   intros [HQ HL HP HS HT HR HW] E1 E2 E3 E4 F12 F01 F11 F02 F13.
   constructor; rewrite ?E2, ?E3; try assumption.
@@ -442,14 +443,14 @@ Proof. reflexivity. Qed.
 
 (** * the read-only operations *)
 Lemma op_getrunning tnt x t :
-  Jop mx tnt x t -> Jop mx tnt (fst (pstep x (PGetRunning 0))) (postep 1 [mx] t (PGetRunning 0) (snd (pstep x (PGetRunning 0)))).
+  Jop mx kp tnt x t -> Jop mx kp tnt (fst (pstep x (PGetRunning 0))) (postep 1 [mx] t (PGetRunning 0) (snd (pstep x (PGetRunning 0)))).
 Proof.
   intros [HJ Hts]. cbn [pstep fst snd postep]. split; [|exact Hts].
-  pose proof (j_p _ _ _ _ _ _ _ HJ) as HP. pose proof (j_s _ _ _ _ _ _ _ HJ) as HS. pose proof (j_w _ _ _ _ _ _ _ HJ) as HW.
+  pose proof (j_p _ _ _ _ _ _ _ _ HJ) as HP. pose proof (j_s _ _ _ _ _ _ _ _ HJ) as HS. pose proof (j_w _ _ _ _ _ _ _ _ HJ) as HW.
   set (n := p_running (get_pool x 0)). rewrite getp0. set (k := nth 0 (po_pools t) ptrk0) in *.
   assert (0 <= n <= mx) as Hn.
-  { unfold n. rewrite (jp_run _ _ _ HP). pose proof (nlive_nonneg (pw_workers x)). pose proof (jp_le _ _ _ HP) as H1.
-    rewrite (jp_run _ _ _ HP) in H1. lia. }
+  { unfold n. rewrite (jp_run _ _ _ _ HP). pose proof (nlive_nonneg (pw_workers x)). pose proof (jp_le _ _ _ _ HP) as H1.
+    rewrite (jp_run _ _ _ _ HP) in H1. lia. }
   assert ((0 <=? n) && (n <=? nth 0 [mx] 0) = true) as E1 by (cbn [nth]; apply andb_true_iff; split; apply Z.leb_le; lia).
   assert (pt_quiet k = true -> (n =? pt_alive k) = true) as E2.
   { intro Hqk. destruct (js_quiet _ _ _ _ _ HS Hqk) as [H1 _]. unfold n, k. lia. }
@@ -458,15 +459,15 @@ Proof.
   rewrite E1. cbn [Nat.eqb andb].
   destruct (pt_quiet k) eqn:Eq; destruct (pt_stop_ok k) eqn:Eok; rewrite ?(E2 eq_refl), ?(E3 eq_refl), ?andb_true_r;
     (eapply (J_tracker_ext tnt tnt); [exact HJ | | | | | | | | |]; autorewrite with potr; cbn [Nat.eqb];
-     try reflexivity; try apply (jp_tclock _ _ _ HP); try apply HW; rewrite ?andb_true_r; apply HW).
+     try reflexivity; try apply (jp_tclock _ _ _ _ HP); try apply HW; rewrite ?andb_true_r; apply HW).
 Qed.
 
 Lemma op_size tnt x t :
-  Jop mx tnt x t -> Jop mx tnt (fst (pstep x (PSize 0))) (postep 1 [mx] t (PSize 0) (snd (pstep x (PSize 0)))).
+  Jop mx kp tnt x t -> Jop mx kp tnt (fst (pstep x (PSize 0))) (postep 1 [mx] t (PSize 0) (snd (pstep x (PSize 0)))).
 Proof. intro H. exact H. Qed.
 
 Lemma op_getstate tnt x t :
-  Jop mx tnt x t -> Jop mx tnt (fst (pstep x (PGetState 0))) (postep 1 [mx] t (PGetState 0) (snd (pstep x (PGetState 0)))).
+  Jop mx kp tnt x t -> Jop mx kp tnt (fst (pstep x (PGetState 0))) (postep 1 [mx] t (PGetState 0) (snd (pstep x (PGetState 0)))).
 Proof.
   intros [HJ Hts]. cbn [pstep fst snd postep]. split; [|exact Hts].
   pose proof HJ as [HQ HL HP HS HT HR HW]. rewrite getp0. set (k := nth 0 (po_pools t) ptrk0) in *.
@@ -489,14 +490,15 @@ Proof.
 Qed.
 
 Lemma op_clock tnt x t c :
-  Jop mx tnt x t -> pw_clock x <= c -> c <= U64MAX ->
-  Jop mx tnt (fst (pstep x (PClock c))) (postep 1 [mx] t (PClock c) (snd (pstep x (PClock c)))).
+  Jop mx kp tnt x t -> pw_clock x <= c -> c <= U64MAX ->
+  Jop mx kp tnt (fst (pstep x (PClock c))) (postep 1 [mx] t (PClock c) (snd (pstep x (PClock c)))).
 Proof.
   intros [HJ Hts] H1 H2. cbn [pstep fst snd postep]. split; [|exact Hts].
   destruct HJ as [HQ HL HP HS HT HR HW]. constructor; autorewrite with pw; try assumption.
   - eapply JL_clock; [exact H1 | exact HL].
   - destruct HP as [P1 P2 P3 P4 P5 P6 P7 P8 P9 P10 P11 P12]. constructor; autorewrite with pw; try assumption.
-    cbn [po_clock]. lia.
+    + destruct P3 as (Ek & Hc0 & Hcr & Hpf). split; [exact Ek|]. split; [lia|]. split; [eapply CR_mono; [exact Hcr | exact H1] | exact Hpf].
+    + cbn [po_clock]. lia.
   - destruct HW as [W1 W2 W3 W4 W5 W6]. constructor; assumption.
 Qed.
 
@@ -514,8 +516,8 @@ Qed.
 
 (** * PSubmit *)
 Lemma op_submit tnt x t body prio :
-  Jop mx tnt x t -> body_from MRun body = true ->
-  Jop mx tnt (fst (pstep x (PSubmit 0 body prio))) (postep 1 [mx] t (PSubmit 0 body prio) (snd (pstep x (PSubmit 0 body prio)))).
+  Jop mx kp tnt x t -> body_from MRun body = true ->
+  Jop mx kp tnt (fst (pstep x (PSubmit 0 body prio))) (postep 1 [mx] t (PSubmit 0 body prio) (snd (pstep x (PSubmit 0 body prio)))).
 Proof.
   intros [HJ Hts] Hbody. pose proof HJ as [[HQt HQc] HL HP HS HT HR HW].
   set (n := length (pw_tbody x)). set (pr := match prio with Some v => v | None => 0 end).
@@ -568,49 +570,50 @@ Qed.
 
 (** a change of the pool record that keeps its configuration, state and count *)
 Lemma J_upd_pool_f tnt tnt' x d h t t' f :
-  J mx tnt x d h t ->
+  J mx kp tnt x d h t ->
   p_state (f (get_pool x 0)) = p_state (get_pool x 0) -> p_running (f (get_pool x 0)) = p_running (get_pool x 0) ->
   p_min (f (get_pool x 0)) = p_min (get_pool x 0) -> p_max (f (get_pool x 0)) = p_max (get_pool x 0) ->
-  p_keep (f (get_pool x 0)) = p_keep (get_pool x 0) ->
+  p_keep (f (get_pool x 0)) = p_keep (get_pool x 0) -> p_popfail (f (get_pool x 0)) = p_popfail (get_pool x 0) ->
   po_clock t' <= pw_clock x ->
   JS mx (p_state (get_pool x 0)) (p_running (get_pool x 0)) (all_items (pw_tq x)) (po_pools t') ->
   JT (pw_workers x) (all_items (pw_tq x)) (pw_tbody x) (po_tasks t') (pw_cancel_tasks x) (pw_cancel_cos x) (pw_running_tasks x) h ->
   JR (p_waits (f (get_pool x 0))) (p_results (f (get_pool x 0))) (p_nowaits (f (get_pool x 0))) (p_state (get_pool x 0))
      (all_items (pw_tq x)) (po_tasks t') ->
   JW (pw_workers x) t' tnt' ->
-  J mx tnt' (upd_pool x 0 f) d h t'.
+  J mx kp tnt' (upd_pool x 0 f) d h t'.
 Proof.
-  intros HJ E1 E2 E3 E4 E5 Hc HS' HT' HR' HW'. pose proof HJ as [[HQt HQc] HL HP HS HT HR HW].
-  assert (length (pw_pools x) = 1%nat) as Hp by apply (jp_pools _ _ _ HP).
+  intros HJ E1 E2 E3 E4 E5 E6 Hc HS' HT' HR' HW'. pose proof HJ as [[HQt HQc] HL HP HS HT HR HW].
+  assert (length (pw_pools x) = 1%nat) as Hp by apply (jp_pools _ _ _ _ HP).
   assert (upd_post x (upd_pool x 0 f) (pw_workers x) (pw_tq x) (pw_cancel_tasks x) (pw_running_tasks x) (f (get_pool x 0))) as Hu.
   { constructor; autorewrite with pw; try reflexivity; [apply get_pool_upd_pool_same; lia | rewrite set_nth_length; exact Hp]. }
-  eapply (J_of_post mx tnt' x _ d h t' _ _ _ _ _ Hu); try eassumption.
+  eapply (J_of_post mx kp tnt' x _ d h t' _ _ _ _ _ Hu); try eassumption.
   - destruct HP as [P1 P2 P3 P4 P5 P6 P7 P8 P9 P10 P11 P12]. constructor; assumption.
-  - rewrite E2. apply (jp_run _ _ _ HP).
-  - rewrite E2. apply (jp_le _ _ _ HP).
+  - rewrite E2. apply (jp_run _ _ _ _ HP).
+  - rewrite E2. apply (jp_le _ _ _ _ HP).
   - rewrite E1, E2. exact HS'.
   - rewrite E1. exact HR'.
+  - destruct (jp_keep _ _ _ _ HP) as (_ & _ & Hcr & Hpf). split; [exact Hcr | rewrite E6; exact Hpf].
 Qed.
 
 (** * PWait / PTake *)
 Lemma expect_tracker_val tnt x d h t i b :
-  J mx tnt x d h t -> (i < length (po_tasks t))%nat -> b = true ->
+  J mx kp tnt x d h t -> (i < length (po_tasks t))%nat -> b = true ->
   let t' := sett (flag t 2 b) i (cons_rec (gett t i)) in
   po_clock t' <= pw_clock x /\
   JS mx (p_state (get_pool x 0)) (p_running (get_pool x 0)) (all_items (pw_tq x)) (po_pools t') /\
   JT (pw_workers x) (all_items (pw_tq x)) (pw_tbody x) (po_tasks t') (pw_cancel_tasks x) (pw_cancel_cos x) (pw_running_tasks x) h /\
   JW (pw_workers x) t' tnt.
 Proof.
-  intros [HQ HL HP HS HT HR HW] Hi ->. cbv zeta. autorewrite with potr. split; [apply (jp_tclock _ _ _ HP)|]. split; [exact HS|]. split.
+  intros [HQ HL HP HS HT HR HW] Hi ->. cbv zeta. autorewrite with potr. split; [apply (jp_tclock _ _ _ _ HP)|]. split; [exact HS|]. split.
   - apply (JT_tk_ext _ _ _ _ _ _ _ _ _ HT); [apply set_nth_length|]. apply tk_same_set. rewrite gett_tkn. constructor; reflexivity.
   - destruct HW as [W1 W2 W3 W4 W5 W6]. constructor; autorewrite with potr; cbn [Nat.eqb]; try assumption.
     rewrite W5. reflexivity.
 Qed.
 
 Lemma expect_none tnt x d t i r :
-  J mx tnt x d None t -> (i < length (po_tasks t))%nat -> assoc_get i (p_results (get_pool x 0)) = None ->
+  J mx kp tnt x d None t -> (i < length (po_tasks t))%nat -> assoc_get i (p_results (get_pool x 0)) = None ->
   r = WTimeout \/ r = WNone ->
-  forall tf, J mx tnt x d None (expect_result t 0 i 1 r tf) /\ po_tasks (expect_result t 0 i 1 r tf) = po_tasks t /\
+  forall tf, J mx kp tnt x d None (expect_result t 0 i 1 r tf) /\ po_tasks (expect_result t 0 i 1 r tf) = po_tasks t /\
   (tt_fin (tkn (po_tasks t) i) = None \/ tt_consumed (tkn (po_tasks t) i) = true \/ tt_cleaned (tkn (po_tasks t) i) = true).
 Proof.
   intros HJ Hi' Er Hr tf. pose proof HJ as [HQ HL HP HS HT HR HW].
@@ -625,16 +628,16 @@ Proof.
     repeat (apply andb_true_iff in Hall as [Hall ?]).
     destruct (js_quiet _ _ _ _ _ HS ltac:(eassumption)) as [Ha Hq0].
     assert (all_items (pw_tq x) = []) as Hnil.
-    { destruct Hq0 as [Hq0|Hq0]; [exact Hq0|]. pose proof (jp_mx _ _ _ HP). lia. }
+    { destruct Hq0 as [Hq0|Hq0]; [exact Hq0|]. pose proof (jp_mx _ _ _ _ HP). lia. }
     apply (jr_tg3 _ _ _ _ _ _ HR i Hi'); try (apply negb_true_iff; assumption).
     - apply (jt_c0 _ _ _ _ _ _ _ _ HT). assumption.
     - apply Nat.eqb_eq. assumption.
     - rewrite Hnil. intros [].
     - exact Er. }
-  assert (forall t', t' = flag (flag t 2 true) 13 true -> J mx tnt x d None t' /\ po_tasks t' = po_tasks t) as Hgen.
+  assert (forall t', t' = flag (flag t 2 true) 13 true -> J mx kp tnt x d None t' /\ po_tasks t' = po_tasks t) as Hgen.
   { intros t' ->. split; [|reflexivity].
     eapply (J_tracker_ext tnt tnt); [exact HJ | | | | | | | | |]; autorewrite with potr; cbn [Nat.eqb];
-      rewrite ?andb_true_r; try reflexivity; try apply (jp_tclock _ _ _ HP); apply HW. }
+      rewrite ?andb_true_r; try reflexivity; try apply (jp_tclock _ _ _ _ HP); apply HW. }
   assert (tt_fin (tkn (po_tasks t) i) = None \/ tt_consumed (tkn (po_tasks t) i) = true \/ tt_cleaned (tkn (po_tasks t) i) = true) as Hd.
   { destruct (tt_fin (tkn (po_tasks t) i)); [|left; reflexivity]. cbn [is_none orb] in Hf2. apply orb_true_iff in Hf2. tauto. }
   destruct Hr as [-> | ->]; cbn [expect_result]; rewrite getp0, !gett_tkn; cbn [Nat.eqb]; rewrite Hf2, Hf13;
@@ -642,8 +645,8 @@ Proof.
 Qed.
 
 Lemma op_take tnt x t i :
-  Jop mx tnt x t -> (i < length (pw_tbody x))%nat ->
-  Jop mx tnt (fst (pstep x (PTake 0 i))) (postep 1 [mx] t (PTake 0 i) (snd (pstep x (PTake 0 i)))).
+  Jop mx kp tnt x t -> (i < length (pw_tbody x))%nat ->
+  Jop mx kp tnt (fst (pstep x (PTake 0 i))) (postep 1 [mx] t (PTake 0 i) (snd (pstep x (PTake 0 i)))).
 Proof.
   intros [HJ Hts] Hi. pose proof HJ as [HQ HL HP HS HT HR HW].
   assert (i < length (po_tasks t))%nat as Hi' by (rewrite (jt_len _ _ _ _ _ _ _ _ HT); exact Hi).
@@ -656,7 +659,7 @@ Proof.
     destruct (expect_tracker_val tnt x _ None t i true HJ Hi' eq_refl) as (T1 & T2 & T3 & T4). rewrite gett_tkn in *.
     split; [|autorewrite with pw; exact Hts].
     assert (p_sd (get_pool (upd_pool x 0 (fun q => p_with_wait (p_waits q) (assoc_del i (p_results q)) (p_nowaits q) q)) 0) = p_sd (get_pool x 0)) as ->.
-    { rewrite get_pool_upd_pool_same by (rewrite (jp_pools _ _ _ HP); lia). reflexivity. }
+    { rewrite get_pool_upd_pool_same by (rewrite (jp_pools _ _ _ _ HP); lia). reflexivity. }
     eapply (J_upd_pool_f tnt tnt x _ None t); try eassumption; autorewrite with pw; try reflexivity.
     autorewrite with potr. eapply JR_take; eassumption.
   - (* nothing there *)
@@ -664,12 +667,12 @@ Proof.
 Qed.
 
 Lemma op_wait tnt x t i :
-  Jop mx tnt x t -> (i < length (pw_tbody x))%nat ->
-  Jop mx tnt (fst (pstep x (PWait 0 i))) (postep 1 [mx] t (PWait 0 i) (snd (pstep x (PWait 0 i)))).
+  Jop mx kp tnt x t -> (i < length (pw_tbody x))%nat ->
+  Jop mx kp tnt (fst (pstep x (PWait 0 i))) (postep 1 [mx] t (PWait 0 i) (snd (pstep x (PWait 0 i)))).
 Proof.
   intros [HJ Hts] Hi. pose proof HJ as [HQ HL HP HS HT HR HW].
   assert (i < length (po_tasks t))%nat as Hi' by (rewrite (jt_len _ _ _ _ _ _ _ _ HT); exact Hi).
-  assert (length (pw_pools x) = 1%nat) as Hp by apply (jp_pools _ _ _ HP).
+  assert (length (pw_pools x) = 1%nat) as Hp by apply (jp_pools _ _ _ _ HP).
   cbn [pstep]. unfold pwait, take. destruct (assoc_get i (p_results (get_pool x 0))) as [r|] eqn:Er; cbn [fst snd postep expect_result].
   - apply assoc_get_In in Er. rewrite getp0.
     pose proof (JR_result_flag _ _ _ _ _ _ i r (pt_stop_called (nth 0 (po_pools t) ptrk0)) HR Er) as Hf. rewrite !gett_tkn.
@@ -680,7 +683,7 @@ Proof.
     set (x1 := upd_pool x 0 (fun q => p_with_wait (p_waits q) (assoc_del i (p_results q)) (p_nowaits q) q)).
     assert (get_pool x1 0 = p_with_wait (p_waits (get_pool x 0)) (assoc_del i (p_results (get_pool x 0))) (p_nowaits (get_pool x 0)) (get_pool x 0)) as Eq1.
     { unfold x1. rewrite get_pool_upd_pool_same by lia. reflexivity. }
-    assert (J mx tnt x1 (p_sd (get_pool x 0)) None t') as HJ1.
+    assert (J mx kp tnt x1 (p_sd (get_pool x 0)) None t') as HJ1.
     { unfold x1. eapply (J_upd_pool_f tnt tnt x _ None t); try eassumption; autorewrite with pw; try reflexivity.
       unfold t'. autorewrite with potr. eapply JR_take; eassumption. }
     unfold notify. fold x1. split; [|autorewrite with pw; exact Hts].
@@ -688,14 +691,14 @@ Proof.
     rewrite get_pool_upd_pool_same by lia. rewrite Eq1. autorewrite with pw.
     pose proof HJ1 as [HQ1 HL1 HP1 HS1 HT1 HR1 HW1].
     eapply (J_upd_pool_f tnt tnt x1 _ None t'); try eassumption; rewrite ?Eq1; autorewrite with pw; try reflexivity;
-      try apply (jp_tclock _ _ _ HP1).
+      try apply (jp_tclock _ _ _ _ HP1).
     rewrite Eq1 in HR1. autorewrite with pw in HR1. apply JR_waits_remove, HR1.
   - destruct (expect_none tnt x _ t i WTimeout HJ Hi' Er (or_introl eq_refl) WTimeout) as (HJ1 & Etk & Hd).
     set (t' := expect_result t 0 i 1 WTimeout WTimeout) in *. split; [|autorewrite with pw; exact Hts].
     rewrite get_pool_upd_pool_same by lia. autorewrite with pw.
     pose proof HJ1 as [HQ1 HL1 HP1 HS1 HT1 HR1 HW1].
     eapply (J_upd_pool_f tnt tnt x _ None t'); try eassumption; autorewrite with pw; try reflexivity;
-      try apply (jp_tclock _ _ _ HP1).
+      try apply (jp_tclock _ _ _ _ HP1).
     apply JR_waits_add; [exact HR1 | autorewrite with potr; exact Hd].
 Qed.
 
@@ -704,12 +707,12 @@ Proof. intros [W1 W2 W3 W4 W5 W6]. constructor; autorewrite with potr; assumptio
 
 (** * PClean *)
 Lemma op_clean tnt x t i :
-  Jop mx tnt x t -> (i < length (pw_tbody x))%nat ->
-  Jop mx tnt (fst (pstep x (PClean 0 i))) (postep 1 [mx] t (PClean 0 i) (snd (pstep x (PClean 0 i)))).
+  Jop mx kp tnt x t -> (i < length (pw_tbody x))%nat ->
+  Jop mx kp tnt (fst (pstep x (PClean 0 i))) (postep 1 [mx] t (PClean 0 i) (snd (pstep x (PClean 0 i)))).
 Proof.
   intros [HJ Hts] Hi. pose proof HJ as [[HQt HQc] HL HP HS HT HR HW].
   assert (i < length (po_tasks t))%nat as Hi' by (rewrite (jt_len _ _ _ _ _ _ _ _ HT); exact Hi).
-  assert (length (pw_pools x) = 1%nat) as Hp by apply (jp_pools _ _ _ HP).
+  assert (length (pw_pools x) = 1%nat) as Hp by apply (jp_pools _ _ _ _ HP).
   cbn [pstep fst snd postep]. rewrite !gett_tkn. unfold pclean, take.
   set (b := negb (is_none (tt_fin (tkn (po_tasks t) i))) && negb (tt_consumed (tkn (po_tasks t) i)) && negb (tt_cleaned (tkn (po_tasks t) i))).
   assert (JS mx (p_state (get_pool x 0)) (p_running (get_pool x 0)) (all_items (pw_tq x)) (po_pools (unquiet t))) as HS'.
@@ -720,12 +723,12 @@ Proof.
     rewrite get_pool_upd_pool_same by lia. autorewrite with pw.
     destruct b eqn:Eb.
     + eapply (J_upd_pool_f tnt tnt x _ None t); try eassumption; autorewrite with pw potr; try reflexivity.
-      * apply (jp_tclock _ _ _ HP).
+      * apply (jp_tclock _ _ _ _ HP).
       * apply (JT_tk_ext _ _ _ _ _ _ _ _ _ HT); [apply set_nth_length|]. apply tk_same_set. constructor; reflexivity.
       * eapply JR_take; eassumption.
       * apply JW_sett_unquiet, HW.
     + eapply (J_upd_pool_f tnt tnt x _ None t); try eassumption; autorewrite with pw potr; try reflexivity.
-      * apply (jp_tclock _ _ _ HP).
+      * apply (jp_tclock _ _ _ _ HP).
       * apply (JT_clean _ _ _ _ (pw_cancel_tasks x) (pw_cancel_tasks x) _ _ _ i HT Hi'); auto.
       * apply (JR_clean _ _ _ _ _ _ _ _ _ HR Hi').
         -- apply assoc_del_NoDup, (jr_rnd _ _ _ _ _ _ HR).
@@ -744,9 +747,9 @@ Proof.
     assert (upd_post x xg (pw_workers x) (pw_tq x) (remove_nat i (pw_cancel_tasks x)) (pw_running_tasks x) (f (get_pool x 0))) as Hu.
     { unfold xg. constructor; autorewrite with pw; try reflexivity; [apply get_pool_upd_pool_same; lia | rewrite set_nth_length; exact Hp]. }
     split; [|rewrite (up_ts _ _ _ _ _ _ _ Hu); exact Hts]. rewrite (up_pool _ _ _ _ _ _ _ Hu).
-    eapply (J_of_post mx tnt x xg _ None _ _ _ _ _ _ Hu); unfold f; autorewrite with pw potr; try eassumption; try reflexivity.
-    + apply (jp_run _ _ _ HP).
-    + apply (jp_le _ _ _ HP).
+    eapply (J_of_post mx kp tnt x xg _ None _ _ _ _ _ _ Hu); unfold f; autorewrite with pw potr; try eassumption; try reflexivity.
+    + apply (jp_run _ _ _ _ HP).
+    + apply (jp_le _ _ _ _ HP).
     + apply (JT_clean _ _ _ _ (pw_cancel_tasks x) _ _ _ _ i HT Hi').
       * intros j Hne Hj. apply remove_nat_In_other; [congruence | exact Hj].
       * intros j Hj. eapply remove_nat_In, Hj.
@@ -756,25 +759,26 @@ Proof.
       * reflexivity.
       * intros j Hj. destruct (mem_nat i (p_nowaits (get_pool x 0))); [right; exact Hj|]. destruct Hj as [<-|Hj]; auto.
     + apply JW_sett_unquiet, HW.
+    + destruct (jp_keep _ _ _ _ HP) as (_ & _ & Hcr & Hpf). split; [exact Hcr | exact Hpf].
 Qed.
 
 (** * PCancel *)
 Lemma J_set_globals tnt tnt' x d h t t' ct' cc' :
-  J mx tnt x d h t -> po_clock t' <= pw_clock x ->
+  J mx kp tnt x d h t -> po_clock t' <= pw_clock x ->
   JS mx (p_state (get_pool x 0)) (p_running (get_pool x 0)) (all_items (pw_tq x)) (po_pools t') ->
   JT (pw_workers x) (all_items (pw_tq x)) (pw_tbody x) (po_tasks t') ct' cc' (pw_running_tasks x) h ->
   JR (p_waits (get_pool x 0)) (p_results (get_pool x 0)) (p_nowaits (get_pool x 0)) (p_state (get_pool x 0))
      (all_items (pw_tq x)) (po_tasks t') ->
   JW (pw_workers x) t' tnt' ->
-  J mx tnt' (set_globals x ct' cc' (pw_running_tasks x)) d h t'.
+  J mx kp tnt' (set_globals x ct' cc' (pw_running_tasks x)) d h t'.
 Proof.
   intros [HQ HL HP HS HT HR HW] Hc HS' HT' HR' HW'. constructor; autorewrite with pw; try assumption.
   destruct HP as [P1 P2 P3 P4 P5 P6 P7 P8 P9 P10 P11 P12]. constructor; autorewrite with pw; assumption.
 Qed.
 
 Lemma op_cancel tnt x t i :
-  Jop mx tnt x t -> (i < length (pw_tbody x))%nat ->
-  Jop mx tnt (fst (pstep x (PCancel i))) (postep 1 [mx] t (PCancel i) (snd (pstep x (PCancel i)))).
+  Jop mx kp tnt x t -> (i < length (pw_tbody x))%nat ->
+  Jop mx kp tnt (fst (pstep x (PCancel i))) (postep 1 [mx] t (PCancel i) (snd (pstep x (PCancel i)))).
 Proof.
   intros [HJ Hts] Hi. pose proof HJ as [[HQt HQc] HL HP HS HT HR HW].
   assert (i < length (po_tasks t))%nat as Hi' by (rewrite (jt_len _ _ _ _ _ _ _ _ HT); exact Hi).
@@ -794,7 +798,7 @@ Proof.
   assert (tk_cancel (po_tasks t) (po_tasks t') i c0 c1) as Htk.
   { unfold t', c0, c1. destruct b; [apply tk_cancel_refl|]. autorewrite with potr. apply tk_cancel_set, Hi'. }
   assert (po_clock t' <= pw_clock x) as Hcl.
-  { unfold t'. destruct b; autorewrite with potr; apply (jp_tclock _ _ _ HP). }
+  { unfold t'. destruct b; autorewrite with potr; apply (jp_tclock _ _ _ _ HP). }
   assert (JS mx (p_state (get_pool x 0)) (p_running (get_pool x 0)) (all_items (pw_tq x)) (po_pools t')) as HS'.
   { unfold t'. destruct b; [exact HS|]. autorewrite with potr. eapply JS_unquiet; [exact HS|]. intro H. apply (js_stopped _ _ _ _ _ HS H). }
   assert (JW (pw_workers x) t' tnt) as HW'.
